@@ -69,15 +69,18 @@ package controlcommands
 //@   ensures posts == 1
 
 //@ func (m *CommandQueue) commit(command MesosCommand) (response MesosCommandResponse, err error)
-//@   property C12
+//@   property C12 C02
 //@   goframes
 //@   ghostvar spawned int = 0
 //@   ghostvar got int = 0
 //@   ghostvar filed int = 0
 //@   ghostvar lastRecv MesosCommandTarget = noTarget()
 //@   on go (*CommandQueue).commit$1 : assert arg0 == targetsOf(command)[#i + 1] ; spawned = spawned + 1
-//@   on recv * : got = got + 1 ; lastRecv = value.receiver
-//@   on mapupdate responses : assert key == lastRecv && filed + 1 == got ; filed = filed + 1
+//@   ghostvar lastFailed bool = false
+//@   on recv * : got = got + 1 ; lastRecv = value.receiver ; lastFailed = value.err != nil
+// C02: a target that could not be reached is filed too, with a response (built from the send error), so that an
+// unreachable or silent critical task reaches transitionTasks / configureTasks as a failed one
+//@   on mapupdate responses : assert key == lastRecv && filed + 1 == got && (lastFailed ==> value != nil) ; filed = filed + 1
 //@   loop 1 invariant spawned == #i + 1 && #i < len(targetsOf(command)) && got == 0 && filed == 0
 //@   loop 2 invariant got == i && filed == i && spawned == len(targetsOf(command)) && i >= 0 && i <= len(targetsOf(command))
 //@   ensures m != nil ==> spawned == len(targetsOf(command))
